@@ -1489,7 +1489,9 @@ fn __get_group_coordinator<'a>(
         // been called yet; if there are no connections available we can
         // try connecting to the user specified bootstrap server similar
         // to the way `load_metadata` works.
-        let conn = conn_pool.get_conn_any(now).expect("available connection");
+        let conn = conn_pool
+            .get_conn_any(now)
+            .ok_or(Error::NoHostReachable)?;
         debug!(
             "get_group_coordinator: asking for coordinator of '{}' on: {:?}",
             group, conn
